@@ -18,6 +18,7 @@ func EncodeJSONFile(path string, obj interface{}) error {
 	}
 
 	defer f.Close()
+	verifCrash("opened", f, nil)
 
 	var formatted bytes.Buffer
 	body, err := json.Marshal(obj)
@@ -29,12 +30,15 @@ func EncodeJSONFile(path string, obj interface{}) error {
 		return err
 	}
 
+	verifCrash("mid-write", f, formatted.Bytes())
 	if _, err := f.Write(formatted.Bytes()); err != nil {
 		return err
 	}
+	verifCrash("written", f, nil)
 	if err := f.Sync(); err != nil {
 		return err
 	}
+	verifCrash("synced", f, nil)
 
 	return nil
 }
